@@ -88,9 +88,30 @@ Definition l_saiz (flags : Z) (listed : nat) : list fld :=
   full (opt flags 1 (FU 4) ++ opt flags 1 (FU 4) ++ [FU 1; FU 4] ++ rep listed [FU 1]).
 
 (* box type codes used by the runner: 0 mdhd 1 mvhd 2 tkhd 3 mehd 4 tfdt 5 mfhd 6 trex 7 tfhd 8 trun 9 saio 10 tenc 11 pssh 12 sidx 13 saiz *)
+(* sample-entry children and protection boxes *)
+Definition l_btrt : list fld := [FU 4; FU 4; FU 4].
+Definition l_pasp : list fld := [FU 4; FU 4].
+Definition l_frma : list fld := [FB 4].
+(* schm: scheme_type, scheme_version, and with flags&1 a NUL-terminated URI of urilen bytes (terminator included) *)
+Definition l_schm (flags : Z) (urilen : nat) : list fld := full ([FB 4; FU 4] ++ opt flags 1 (FB urilen)).
+(* senc: with flags&1 the PIFF override (algorithm id 3 bytes, iv size, key id); sample count; per sample the IV and,
+   with flags&2, a 16-bit subsample count and that many (clear u16, encrypted u32) pairs.  A sample whose saiz size
+   leaves no room for the count (size < iv + 2) has no count field: the harness passes None for it as the library
+   reads the saiz sizes; here that is the entry  None  of the count list *)
+Fixpoint l_senc_samples (flags : Z) (iv : nat) (counts : list (option nat)) : list fld :=
+  match counts with
+  | [] => []
+  | c :: r => (FB iv :: (if Z.testbit flags 1 then
+                           match c with Some k => FU 2 :: rep k [FU 2; FU 4] | None => [] end
+                         else [])) ++ l_senc_samples flags iv r
+  end.
+Definition l_senc (flags : Z) (iv : nat) (counts : list (option nat)) : list fld :=
+  full (opt flags 1 (FB 3) ++ opt flags 1 (FU 1) ++ opt flags 1 (FB 16) ++ [FU 4] ++ l_senc_samples flags iv counts).
+
 Definition layout_of (t version flags : Z) (n1 n2 : nat) : list fld :=
   if t =? 0 then l_mdhd version else if t =? 1 then l_mvhd version else if t =? 2 then l_tkhd version
   else if t =? 3 then l_mehd version else if t =? 4 then l_tfdt version else if t =? 5 then l_mfhd
   else if t =? 6 then l_trex else if t =? 7 then l_tfhd flags else if t =? 8 then l_trun flags n1
   else if t =? 9 then l_saio version flags n1 else if t =? 10 then l_tenc else if t =? 12 then l_sidx version n1
-  else if t =? 13 then l_saiz flags n1 else l_pssh version n1 n2.
+  else if t =? 13 then l_saiz flags n1 else if t =? 14 then l_btrt else if t =? 15 then l_pasp else if t =? 16 then l_frma
+  else if t =? 17 then l_schm flags n1 else l_pssh version n1 n2.
